@@ -28,3 +28,10 @@ pub use typegen::{
 
 #[cfg(test)]
 mod tests;
+
+// Verification hook (compiled only by the Kani compiler, which sets `cfg(kani)`):
+// harness sources live outside this repository and are included by path.
+#[cfg(kani)]
+mod verif_kani {
+    include!(concat!(env!("SCALE_TYPEGEN_VERIF_DIR"), "/kani/typegen.rs"));
+}
